@@ -294,7 +294,7 @@ func alnCheck(r *obs.Run, which string, c alnCase, al alphabet.Alphabet, M [][]i
 		p := out.pairs[f.pairMismatch]
 		brief := fmt.Sprintf("pair %d [%d,%d)/[%d,%d) reports score %d, recomputed %d", f.pairMismatch, p.AS, p.AE, p.BS, p.BE, p.Score, f.pairWant)
 		switch {
-		case affine && (f.reported == optRestricted || f.reported == optFull):
+		case affine && (f.recomputed != f.reported || f.oppositeAbut) && (f.reported == optRestricted || f.reported == optFull):
 			r.Violate("affine-layer-confusion", fmt.Sprintf("%s open=%d r=%q q=%q: %s (reported scores sum to the table value %d)", c.Alg, c.Open, c.R, c.Q, brief, f.reported), c.witness(out, facts))
 		default:
 			viol("pair-score", brief, facts)
